@@ -107,4 +107,10 @@ func init() {
 (assert (forall ((a Int) (k Int)) (! (=> (<= k 0) (= (ntrans a k) 0)) :pattern ((ntrans a k)))))
 (assert (forall ((a Int) (k Int)) (! (=> (> k 0) (= (ntrans a k) (+ (ntrans a (- k 1)) (ite (= (sel_Int a (- k 1)) 0) 0 1)))) :pattern ((ntrans a k)))))
 `})
+	// cntact(A,t,v,i): number of sources j < i (A = array of stream ids) whose t-th action equals v
+	addPrelude(&PreludeFn{Name: "cntact", Args: []string{"chanslice", "int", "int", "int"}, Ret: "int", Deps: []string{"sel_Int"}, SMT: `
+(declare-fun cntact ((Array Int Int) Int Int Int) Int)
+(assert (forall ((A (Array Int Int)) (t Int) (v Int) (i Int)) (! (=> (<= i 0) (= (cntact A t v i) 0)) :pattern ((cntact A t v i)))))
+(assert (forall ((A (Array Int Int)) (t Int) (v Int) (i Int)) (! (=> (> i 0) (= (cntact A t v i) (+ (cntact A t v (- i 1)) (ite (= (sel_Int (select A (- i 1)) t) v) 1 0)))) :pattern ((cntact A t v i)))))
+`})
 }
